@@ -682,8 +682,18 @@ func totalWorker(w0 *vf.Worker) {
 				continue
 			}
 			w.Eval(1)
-			if rr != 0 {
-				report("reflexive", a.name, fmt.Sprintf("%s(%s,%s) = %d, expected 0", c.name, a.name, a.name, rr))
+			// reflexivity, on the value itself and on a separately built copy;
+			// asserted for every sort comparator (ci < 8), the natural ones included
+			rc := c.f(a.mv, a.mv.Copy())
+			rc2 := c.f(a.mv.Copy(), a.mv)
+			w.Eval(2)
+			if rr != 0 || rc != 0 || rc2 != 0 {
+				what := fmt.Sprintf("%s(%s,%s) = %d (copy on the right: %d, on the left: %d), expected 0", c.name, a.name, a.name, rr, rc, rc2)
+				if ci < 8 {
+					w.Violation(fmt.Sprintf("total-%s-reflexive(%s)", c.name, a.name), what, nil)
+				} else {
+					report("reflexive", a.name, what)
+				}
 			}
 			for bi, b := range G {
 				ab, ba := c.f(a.mv, b.mv), c.f(b.mv, a.mv)
